@@ -54,7 +54,7 @@ CLAIMED["C16"] = dict(
          "that comparison (conjuncts are split; a further condition that narrows the documented one is reported) "
          "with the documented class, in a function the constructors/calculators call on every "
          "path; the program's exit status is EXIT_FAILURE after a caught error and equals have_problem() in "
-         "the MSSM; the writer runs only after the reader returned; the C error codes map the classes. Second session (V5): tachyon detection tests the minimum over all squared masses of a sector, before sqrt(|m^2|), in the MSSM and the THDM.",
+         "the MSSM; the writer runs only after the reader returned; the C error codes map the classes. Second session (V5): tachyon detection tests the minimum over all squared masses of a sector, before sqrt(|m^2|), in the MSSM and the THDM. Third session: (V2b) the THDM reader's 'undecidable basis' rejection is decided by the truth table of the throw's path condition over its zero-test atoms (robust to De Morgan rewrites, named predicates, early returns).",
     note=TRUST + "The list of documented conditions is frozen in the checker (rules_c16.DOCUMENTED). Not decided: "
          "that a result reported without error/problem/warning is a finite number (numerical).",
     ref="3 C16, Appendix A")
@@ -190,7 +190,7 @@ CLAIMED["C04"] = dict(
          "the EWSB elimination solves them identically; a tachyon is flagged exactly under m^2 < 0 before "
          "sqrt|m^2| in every sector the a_mu code reads; Goldstones are reordered last to index 0. A wrong "
          "D-term coefficient in one generation is invisible at the pinned test points; here it is a polynomial "
-         "mismatch.",
+         "mismatch. Third session: (R7) typestate for all 34 sectors -- every model operation that writes a parameter entering a sector's mass matrix recomputes that sector before it returns (no stale mass/mixing pair after a multi-step API sequence); (R8) calculate_DRbar_masses computes every sector unconditionally (no early return, no guarded sector).",
     note=TRUST + "The MSSM conventions (GUT-normalised g1, superfield hypercharges, Feynman gauge) are written "
          "in rules_c04.spec_matrices. Not decided: everything about the numerical eigen-decomposition "
          "(unitarity, ordering, non-negativity, sum rules as numbers).",
@@ -210,7 +210,7 @@ CLAIMED["C08"] = dict(
          "reductions), with alpha = atan(tan beta) - asin(sin(beta-alpha)). Goldstones are moved to index 0 by "
          "MZ/MW after all sectors; the reported sin/cos(beta-alpha) come from the one normalised alpha_h, which is asin(ZH(1,1)) shifted by "
          "-+pi exactly when beta - alpha_h leaves [-pi/2, pi/2] (case analysis of the folded getter); the CKM "
-         "matrix enters the up-type Yukawa matrices only through its adjoint. Second session (R7): the reported mixing angle is the angle of the heavy CP-even eigenvector for every sign convention the diagonalisation contract allows (atan2 / atan of both components); a single-component inverse function is rejected -- this found the alpha_h defect named in the property text, now repaired.",
+         "matrix enters the up-type Yukawa matrices only through its adjoint. Second session (R7): the reported mixing angle is the angle of the heavy CP-even eigenvector for every sign convention the diagonalisation contract allows (atan2 / atan of both components); a single-component inverse function is rejected -- this found the alpha_h defect named in the property text, now repaired. Third session: (R10) typestate for the derived Yukawa matrices -- an operation that writes v1, v2 or a Yukawa parameter and then computes the spectrum calls init_yukawas() in between, so the fermion masses equal the SM input after any API sequence.",
     note=TRUST + "The 2HDM potential (arXiv:2110.13238 Eq.(1)) is written in rules_c08.spec. Not decided: the value "
          "of alpha_h read back from the numerical eigenvector (the property text records a defect there away "
          "from alignment: it depends on the eigen-solver's sign convention), SM fermion masses / CKM through "
@@ -266,7 +266,7 @@ CLAIMED["C07"] = dict(
          "squared mass, a missing 1/m^2 or the log of a dimensionful quantity is reported as a unit error at "
          "the offending sub-expression. The pole-mass slots read by the formulas are only those the model "
          "refreshes unconditionally (not the fill-if-empty SUSY slots, which would keep an earlier point's "
-         "masses). The two-loop uncertainty is a positive constant plus positive multiples of |2L(a)| terms.",
+         "masses). The two-loop uncertainty is a positive constant plus positive multiples of |2L(a)| terms. Third session: (TA) every value tan_alpha can return satisfies tan(2 alpha) = tan(2 beta)(MA^2+MZ^2)/(MA^2-MZ^2) as a polynomial identity (sqrt(X)^2 -> X), or in the limit named by the large-ratio test that selects the branch, and is the negative root.",
     note=TRUST + "This is a necessary condition only: it proves homogeneity under a joint rescaling of all "
          "dimensionful quantities (SM masses included). The size of the O(MZ^2/M_SUSY^2) remainder and of the "
          "logarithms is numerical and not decided.",
@@ -314,7 +314,7 @@ CLAIMED["C01"] = dict(
          "kernels of Li2 on [0,1/2] and of Cl2 on (0,pi/2), [pi/2,pi], with their coefficients rounded to "
          "double, are within 1.5e-15 / 6e-18 / 5e-17 of the series (rigorous bounds in exact rational "
          "arithmetic); 2 pi enters the Cl2 reflection accurate to 1e-19; the complex series has the "
-         "Bernoulli coefficients and a remainder below 2e-15. These hold for all arguments, not for sampled ones. Second session (K5): the distance of the Cl2 argument to the nearest multiple of pi (a zero of Cl2) is computed with constants whose exact sum is pi to 1e-29, a short leading constant and fused products; no reduction by a 53-bit 2 pi.",
+         "Bernoulli coefficients and a remainder below 2e-15. These hold for all arguments, not for sampled ones. Second session (K5): the distance of the Cl2 argument to the nearest multiple of pi (a zero of Cl2) is computed with constants whose exact sum is pi to 1e-29, a short leading constant and fused products; no reduction by a 53-bit 2 pi. Third session: (R9) the loop- and special-function files keep no writable or run-time initialised static / thread-local storage (no memo whose key is narrower than the inputs).",
     note=TRUST + "NOT decided: floating-point rounding of the kernel evaluation itself (a few ulp, not bounded here); "
          "the geometry of the complex dilogarithm's transformations (|u| <= 1.26 is taken from the region "
          "|z| <= 1, Re z <= 1/2); the three real regimes of f_PS against its complex definition; rounding for "
@@ -335,7 +335,7 @@ CLAIMED["C02"] = dict(
          "expansion of that generic form (x f' - f for the Barr-Zee functions incl. value and slope at 1/4 and "
          "the large-x series of FSZ; the (y-x)^2, (x-1)^2 and (1,1) expansions of Fa, Fb, Ixy with all "
          "coefficients); the test that selects an equal-argument expansion is scale free; zero arguments "
-         "return 0.",
+         "return 0. Third session: (R9) the loop-function files keep no writable or run-time initialised static / thread-local storage.",
     note=TRUST + "Also decided: for lambda^2 > 0, phi_pos is the Davydychev-Tausk form Phi[x,y,z] of ffunctions.m and its "
          "small-argument expansions (l00, l0v, lv0, u = v) solve the defining quadratic to the stated order. NOT "
          "decided: the accuracy figures as numbers; phi_neg (the Clausen form of Phi for lambda^2 < 0) against "
